@@ -953,6 +953,68 @@ theorem HandleRun.refines {root : Addr} {h h' : Heap} {ops : List HOp} {bops : L
     obtain ⟨hi', hs', hrl', hr', d', hb', hd'⟩ := ih hi1 hs1 hrl1 hd1
     exact ⟨hi', hs', hrl', by simp only [Ytk.Heap.hrun, he, hr'], d', hb', hd'⟩
 
+/-! ### the documented panic: `MustSet` out of range on a live list handle -/
+
+theorem hrun_append : ∀ (ops : List HOp) (h h1 : Heap) (ops' : List HOp), Ytk.Heap.hrun h ops = .ok h1 →
+    Ytk.Heap.hrun h (ops ++ ops') = Ytk.Heap.hrun h1 ops'
+  | [], h, h1, ops', hr => by
+    simp only [Ytk.Heap.hrun, Outcome.ok.injEq] at hr; subst hr; rfl
+  | op :: ops, h, h1, ops', hr => by
+    simp only [List.cons_append, Ytk.Heap.hrun] at hr ⊢
+    cases hs : hstep h op with
+    | ok q => rw [hs] at hr; simp only at hr ⊢; exact hrun_append ops q.1 h1 ops' hr
+    | err => rw [hs] at hr; cases hr
+    | panic => rw [hs] at hr; cases hr
+
+/-- `l.MustSet(i, v)` on a live list handle panics at heap level EXACTLY WHEN the value-level call
+    addressed by the handle's path does -/
+theorem hstep_live_mustSet_panic {h : Heap} {root l v : Addr} {i : Nat} {d : AMap Node} {p : String} {vn : Node}
+    (hi : Inv h) (hrl : root < h.size) (hd : abs h root = some (.cont d)) (hp : p ≠ "")
+    (hlive : LiveAt h root l p) :
+    hstep h (.listMustSet l i v) = .panic ↔ bstep d (.listMustSet p i vn) = .panic := by
+  have hl : lookupSegsH h root (splitPath p) = some l := by simpa [LiveAt, hp, lookupH] using hlive
+  obtain ⟨_, n, hn, hln⟩ := lookupSegsH_abs _ root l d ⟨_, abs_absH hd⟩ hl
+  have hlook : lookup d p = some n := by simp only [lookup, if_neg hp]; exact hn
+  obtain ⟨f, hf⟩ := hln
+  obtain ⟨f', cell, _, hg, hm⟩ := absH_inv hf
+  simp only [hstep, listMustSetH, hg, bstep, hlook]
+  cases cell with
+  | leaf s => cases hm; simp [Outcome.map]
+  | cont kvs => obtain ⟨m, _, rfl⟩ := hm; simp [Outcome.map]
+  | list xs =>
+    obtain ⟨ns, h1, rfl⟩ := hm
+    have hlen : ns.length = xs.length := optMapM_length h1
+    simp only [hlen]
+    by_cases hlt : i < xs.length
+    · simp [hlt, Outcome.map]
+    · simp [hlt, Outcome.map]
+
+/-- a history that ends in the documented panic: both models panic -/
+theorem HandleRun.refines_panic {root : Addr} {h h1 : Heap} {ops : List HOp} {bops : List BOp} {d : AMap Node}
+    (hrun : HandleRun root h ops bops h1) (hi : Inv h) (hs : SibSep h root) (hrl : root < h.size)
+    (hd : abs h root = some (.cont d)) {l v : Addr} {i : Nat} {p : String} (vn : Node) (hp : p ≠ "")
+    (hlive : LiveAt h1 root l p) :
+    Ytk.Heap.hrun h (ops ++ [.listMustSet l i v]) = .panic ↔ brun d (bops ++ [.listMustSet p i vn]) = .panic := by
+  obtain ⟨hi1, _, hrl1, hr1, d1, hb1, hd1⟩ := hrun.refines hi hs hrl hd
+  rw [hrun_append ops h h1 _ hr1, brun_append bops d d1 _ hb1]
+  have key := hstep_live_mustSet_panic (i := i) (v := v) (vn := vn) hi1 hrl1 hd1 hp hlive
+  simp only [Ytk.Heap.hrun, brun]
+  constructor
+  · intro hh
+    have : hstep h1 (.listMustSet l i v) = .panic := by
+      cases hs : hstep h1 (.listMustSet l i v) with
+      | ok q => rw [hs] at hh; cases hh
+      | err => rw [hs] at hh; cases hh
+      | panic => rfl
+    rw [key.mp this]
+  · intro hh
+    have : bstep d1 (.listMustSet p i vn) = .panic := by
+      cases hs : bstep d1 (.listMustSet p i vn) with
+      | ok q => rw [hs] at hh; cases hh
+      | err => rw [hs] at hh; cases hh
+      | panic => rfl
+    rw [key.mpr this]
+
 /-! ## 6. sufficient executable checks on concrete heaps (for non-vacuity instances) -/
 
 /-- the list `S` of addresses is closed under children -/
